@@ -26,7 +26,10 @@ def judge(res, o, lean):
         res.fail("root-count-ne-truth", cfg, {"python": o["root_counts"], "truth": o["root_truth"]})
     if not o["root_is_0"]:
         res.fail("specification-root-is-not-the-start-class", cfg, "")
-    _chk, _msh, status, model = speccheck.parse_lean(lean)
+    ll = speccheck.parse_lean(lean)
+    _chk, _msh, status, model = ll
+    if not ll.wf:
+        res.diff("skeleton of a real specification does not meet SkelWF (hypothesis of spec_counts_correct / evalSpec_correct)", cfg, "wf=0", "")
     if status != "ok" or model != o["py"]:
         res.diff("get_terms vs Lean evalSpec of the skeleton", cfg, (status + " " + model)[:400], o["py"][:400])
 
